@@ -4,7 +4,10 @@ import NucsProofs.Propagators.CountEq
 import NucsProofs.Propagators.Counting
 import NucsProofs.Propagators.Dummy
 import NucsProofs.Propagators.Element
+import NucsProofs.Propagators.Lex
 import NucsProofs.Propagators.MinMax
+import NucsProofs.Propagators.NoSubCycle
+import NucsProofs.Propagators.Scc
 
 /-!
   C05 — filtering never removes a value that takes part in a solution.
@@ -27,15 +30,18 @@ theorem C05_elementLiv : Sound .elementLiv := sound_elementLiv
 theorem C05_elementLic : Sound .elementLic := sound_elementLic
 theorem C05_exactlyEq : Sound .exactlyEq := sound_exactlyEq
 theorem C05_exactlyTrue : Sound .exactlyTrue := sound_exactlyTrue
+theorem C05_lexLeq : Sound .lexLeq := sound_lexLeq
 theorem C05_maxEq : Sound .maxEq := sound_maxEq
 theorem C05_maxLeq : Sound .maxLeq := sound_maxLeq
 theorem C05_minEq : Sound .minEq := sound_minEq
 theorem C05_minGeq : Sound .minGeq := sound_minGeq
+theorem C05_noSubCycle : Sound .noSubCycle := sound_noSubCycle
 theorem C05_relation : Sound .relation := sound_relation
+theorem C05_scc : Sound .scc := sound_scc
 
 /-- algorithms for which `Sound` is stated (Spec.lean) but not proved here: validated by the
     correspondence and the brute-force oracle only -/
-def C05_unproved : List Alg := [.alldifferent, .gcc, .lexLeq, .noSubCycle, .scc]
+def C05_unproved : List Alg := [.alldifferent, .gcc]
 
 /-- non-vacuity: a concrete in-contract, non-empty box on which the call prunes -/
 example : Contract .affineLeq [1, 1, -1, 0] [(2, 5), (2, 5), (0, 10)] ∧
